@@ -122,7 +122,8 @@ PROPS["C05"] = {
 }
 PROPS["C06"] = {
     "lean": ["MysyncProofs.C06"],
-    "go": [("internal/app", "^TestVerifC06$")],
+    # the failover-heavy iterations of the C05 sweep are where a request gets FILED (create-if-absent under a racing initiator)
+    "go": [("internal/app", "^TestVerifC06$"), ("internal/app", "^TestVerifC05$")],
     "level": "proof",
     "components": _MGR_COMPONENTS + ["MysyncModel/App/SwitchLifecycle.lean (switch / last_switch / last_rejected_switch as a state machine: file, abort, manager tick)"],
     "trusted": _MGR_TRUSTED,
@@ -200,7 +201,7 @@ PROPS["C11"] = {
     "lean": ["MysyncProofs.C11"],
     "go": [("internal/app", "^TestVerifC11$"), ("internal/app", "^TestVerifC01$"),
            # 'while marked it is never in the published active list': every list the real updateActiveNodes publishes (C04's harness, C11-prefixed monitor)
-           ("internal/app", "^TestVerifC04$")],
+           ("internal/app", "^TestVerifC04$"), ("internal/app", "^TestVerifC10$")],
     "level": "proof",
     "components": ["MysyncModel/App/Recovery.lean (checkRecovery incl. the stuck-commit timer, isSlavePermanentlyLost, SetRecovery write order, stale-master repair)",
                    "MysyncModel/App/Switchover.lean (marking before promotion)", "MysyncModel/App/ActiveNodes.lean (exclusion of marked hosts from the list)", "MysyncModel/GtidParse.lean, Gtid.lean"],
@@ -320,7 +321,8 @@ PROPS["C02"] = {
 PROPS["C07"] = {
     "facts": ["App.Run", "App.connectDCS", "App.newDBCluster"],
     "lean": ["MysyncProofs.C07", "MysyncProofs.C07World"],
-    "go": [("internal/app", "^TestVerifC07$")],
+    # the real procedure run by run: master key last and after promotion, the list published at promotion (what a successor judges the request against)
+    "go": [("internal/app", "^TestVerifC07$"), ("internal/app", "^TestVerifC01$")],
     "level": "proof",
     "components": _SIM_COMPONENTS + ["MysyncModel/App/Switchover.lean + SwitchLifecycle.lean (the procedure as an ordered step list over oracle outcomes; a crash is a prefix)",
                                          "MysyncModel/App/SwitchWorld.lean (effect of every step on a world of servers and coordination keys; the oracle inputs of the successor's run are read off the world the crash left behind)"],
